@@ -26,11 +26,15 @@ CLAIMED = {
         design="6/C17"),
     "C20": dict(
         text="Coq theorems (axiom-free, exact rationals) about a hand model mirroring find_intersections' four slope-class branches: every "
-             "reported point lies on a wall edge and on the segment for any polyline (soundness, all branches); completeness for the representative "
-             "branch. The model is evaluated by vm_compute against the float implementation (find_intersections, wallIntersection, polygons.area/"
-             "clockwise/intersect, closest_approach) on lattice and random dyadic cases each run.",
-        note="Trusted: Coq kernel; the correspondence harness; completeness of three of four branches rests on the correspondence only; "
-             "cases whose exact outcome depends on the tolerance are counted as degenerate and not compared.",
+             "reported point lies on a wall edge and on the segment for any polyline (soundness, all branches); COMPLETENESS in all four branches and "
+             "both orientations of segment and edge: a point where the segment meets an edge it is `separated` from (non-zero lengths; same-class slopes "
+             "differing by the code's own 1e-15 filter) is reported, so for any polyline the reported points are EXACTLY the crossings; reversed segments / "
+             "reversed edges give the same hits and misses; a crossing through a shared vertex is reported by both edges and merged into one point by "
+             "wallIntersection for any positive tolerance; the tolerance only widens acceptance; closest_approach returns the minimum of the distance "
+             "over the whole segment and attains it. The model is evaluated by vm_compute against the float implementation (find_intersections, "
+             "wallIntersection, polygons.area/clockwise/intersect, closest_approach) on lattice and random dyadic cases each run.",
+        note="Trusted: Coq kernel; the correspondence harness (hand model, not translated); polygons.intersect / area have no spec theorem beyond the exact "
+             "model they are compared with; cases whose exact outcome depends on the tolerance are counted as degenerate and not compared.",
         technique="Coq proof (field/lra over Q) on a hand model + differential correspondence",
         design="6/C20"),
     "C13": dict(
